@@ -85,12 +85,19 @@ def stage_enc(cfg, exe, driver, cases):
             rec['impl'] = res
             rec['status'] = 'run'
             dlines.append(case_line(cid, 'enc', tid, sexp(t), repr_))
+            dlines.append(case_line(cid + '#ht', 'hasty', tid, sexp(t), repr_))
         out.append(rec)
     model = run_cases(driver, dlines)
     for rec in out:
         if rec['status'] == 'run':
             rec['model'] = model.get(rec['cid'])
             rec['agree'] = rec['model'] == rec['impl']
+            # the representation the implementation reports must be a value of the model (`has_ty`, the hypothesis of
+            # the codec theorems, asked of the extracted definition): otherwise agreement on it says nothing proved
+            rec['has_ty'] = model.get(rec['cid'] + '#ht')
+            if rec['has_ty'] != '1':
+                rec['agree'] = False
+                rec['model'] = '%s [has_ty = %s: the representation is outside the model\'s values]' % (rec['model'], rec['has_ty'])
     return out
 
 
